@@ -59,7 +59,16 @@ Recs(f) ==
         x == LET s == NMod(Seeds[((j * 5) % Len(Seeds)) + 1].b \o Seeds[((j * 11 + 3) % Len(Seeds)) + 1].b, m) IN IF s = MZero(m) THEN MOne(m) ELSE s
         tag == [field |-> f, w |-> cs[j].w, limb |-> cs[j].limb, sv |-> cs[j].sv, fill |-> cs[j].fill]
     IN IF ~ok THEN <<>>
-       ELSE << [k |-> "fin", field |-> f, op |-> "mul", a |-> x, b |-> MDiv(m, z, x), tag |-> tag],
+       ELSE \* ... and the same value z as an OPERAND (its residue, not the result's, has the special limb): a borrow /
+            \* carry primitive that mishandles an all-ones or zero limb of its input shows only here
+            << [k |-> "fin", field |-> f, op |-> "sub", a |-> x, b |-> z, tag |-> tag],
+               [k |-> "fin", field |-> f, op |-> "sub", a |-> z, b |-> x, tag |-> tag],
+               [k |-> "fin", field |-> f, op |-> "sub", a |-> MZero(m), b |-> z, tag |-> tag],
+               [k |-> "fin", field |-> f, op |-> "add", a |-> z, b |-> x, tag |-> tag],
+               [k |-> "fin", field |-> f, op |-> "add", a |-> z, b |-> z, tag |-> tag],
+               [k |-> "fin", field |-> f, op |-> "mul", a |-> z, b |-> x, tag |-> tag],
+               [k |-> "fin", field |-> f, op |-> "mul", a |-> z, b |-> z, tag |-> tag] >> \o
+            << [k |-> "fin", field |-> f, op |-> "mul", a |-> x, b |-> MDiv(m, z, x), tag |-> tag],
                [k |-> "fin", field |-> f, op |-> "add", a |-> x, b |-> MSub(m, z, x), tag |-> tag],
                [k |-> "fin", field |-> f, op |-> "sub", a |-> x, b |-> MSub(m, x, z), tag |-> tag],
                [k |-> "fin", field |-> f, op |-> "div", a |-> z, b |-> MInv(m, x), tag |-> tag] >>])
